@@ -10,7 +10,7 @@ from numpy import array
 
 # Local Imports
 from ..data.ephemeris import TruthEphemeris
-from ..physics.time.stardate import JulianDate
+from ..physics.time.stardate import JulianDate, datetimeToJulianDate
 from ..physics.transforms.methods import ecef2lla, eci2ecef
 from ..sensors import sensorFactory
 from ..sensors.sensor_base import Sensor
@@ -167,13 +167,14 @@ class SensingAgent(Agent):
 
     def pruneTimeBiasEvents(self) -> None:
         """Remove events from the queue that happened in the past."""
+        # [NOTE]: compare with the same datetime -> Julian date conversion that event rows are built with;
+        #   `julian_date_epoch` (start + elapsed/86400) can differ from it in the last bit, which dropped
+        #   a bias whose interval starts or ends exactly on the current epoch.
+        current_jd = datetimeToJulianDate(self.datetime_epoch)
         self.sensor_time_bias_event_queue = [
             event
             for event in self.sensor_time_bias_event_queue
-            if (
-                self.julian_date_epoch <= event.end_time_jd
-                and self.julian_date_epoch >= event.start_time_jd
-            )
+            if event.start_time_jd <= current_jd <= event.end_time_jd
         ]
 
     def updateInfo(self, sensor_change):
